@@ -560,10 +560,128 @@ func checkArchNonNil(e *Env, m *e1Model) {
 					}
 				}
 			}
+			if !assigned {
+				// the architecture is kept in a local instead of being written back: local = phi(field [non-nil edge],
+				// GetInfo(...) [behind err == nil]), and the field itself is never dereferenced in this function
+				assigned = archLocalRoute(f, bo.X, nilArm)
+			}
 			r.Check(assigned, "E6.nil", "Policy.Assemble/arch-assigned-when-nil/"+baseName(base), p.Pos(ifi.Pos()), "a nil arch is replaced before use", "a nil architecture pointer is detected but not replaced")
 		}
 	}
 	r.Check(len(guards) >= 2, "E6.nil", "Policy.Assemble/arch-nil-guards", p.Pos(pa.Pos()), "both the policy's and the group's architecture pointers are set before they are used", fmt.Sprintf("%d of the 2 nil guards on architecture pointers found: a nil pointer would be dereferenced while compiling", len(guards)))
+}
+
+// archLocalRoute: the tested pointer v (a load of an `arch` field) joins, in a phi, with values that are non-nil by
+// construction (result 0 of a (value, error) function behind its checked success, a package-level table pointer), and no
+// other load of that field is dereferenced in f - every use goes through the joined local.
+func archLocalRoute(f *ssa.Function, v ssa.Value, nilArm *ssa.BasicBlock) bool {
+	ld, ok := v.(*ssa.UnOp)
+	if !ok || ld.Op != token.MUL {
+		return false
+	}
+	fa0, ok := ld.X.(*ssa.FieldAddr)
+	if !ok {
+		return false
+	}
+	// conditions known on the edge pred -> succ
+	edgeConds := func(pred, succ *ssa.BasicBlock) []flow.Cond {
+		cs := append([]flow.Cond{}, flow.DomConds(pred)...)
+		if ifi, ok := flow.LastIf(pred); ok && len(pred.Succs) == 2 && pred.Succs[0] != pred.Succs[1] {
+			cs = append(cs, flow.Cond{V: ifi.Cond, Pol: pred.Succs[0] == succ, At: ifi})
+		}
+		return cs
+	}
+	var nonNil func(x ssa.Value, conds []flow.Cond, depth int) bool
+	nonNil = func(x ssa.Value, conds []flow.Cond, depth int) bool {
+		if depth > 4 {
+			return false
+		}
+		switch y := x.(type) {
+		case *ssa.Extract:
+			if c, ok := y.Tuple.(*ssa.Call); ok && y.Index == 0 {
+				if cal := flow.Callee(c); cal != nil && nilOnlyWithError(cal, 0) {
+					if errv := flow.ErrResult(c); errv != nil {
+						nn, known := flow.ErrNonNil(conds, errv)
+						return known && !nn
+					}
+				}
+			}
+			return false
+		case *ssa.Phi:
+			for i, e := range y.Edges {
+				if !nonNil(e, edgeConds(y.Block().Preds[i], y.Block()), depth+1) {
+					return false
+				}
+			}
+			return true
+		case *ssa.UnOp:
+			if g, ok := y.X.(*ssa.Global); ok && y.Op == token.MUL && g.Pkg != nil && g.Pkg.Pkg.Path() == load.PkgArch {
+				return true
+			}
+		}
+		// the tested value itself where `v != nil` holds
+		if x == v {
+			for _, cd := range conds {
+				c := flow.Norm(cd)
+				if bo, ok := c.V.(*ssa.BinOp); ok && bo.X == v && flow.IsNilConst(bo.Y) && ((bo.Op == token.NEQ && c.Pol) || (bo.Op == token.EQL && !c.Pol)) {
+					return true
+				}
+			}
+		}
+		return false
+	}
+	joined := false
+	for _, b := range f.Blocks {
+		for _, in := range b.Instrs {
+			ph, ok := in.(*ssa.Phi)
+			if !ok {
+				continue
+			}
+			uses := false
+			for _, e := range ph.Edges {
+				if e == v {
+					uses = true
+				}
+			}
+			if uses && nonNil(ph, flow.DomConds(b), 0) {
+				joined = true
+			}
+		}
+	}
+	if !joined {
+		return false
+	}
+	// no dereference through any load of the same field
+	for _, b := range f.Blocks {
+		for _, in := range b.Instrs {
+			l2, ok := in.(*ssa.UnOp)
+			if !ok || l2.Op != token.MUL {
+				continue
+			}
+			fa, ok := l2.X.(*ssa.FieldAddr)
+			if !ok || fa.Field != fa0.Field || fa.X != fa0.X || l2.Referrers() == nil {
+				continue
+			}
+			for _, ref := range *l2.Referrers() {
+				switch r := ref.(type) {
+				case *ssa.FieldAddr:
+					if r.X == ssa.Value(l2) {
+						return false
+					}
+				case *ssa.UnOp:
+					if r.Op == token.MUL && r.X == ssa.Value(l2) {
+						return false
+					}
+				case *ssa.Call:
+					// handed on as a receiver/argument: it may be dereferenced there
+					if l2 != ld {
+						return false
+					}
+				}
+			}
+		}
+	}
+	return true
 }
 
 func baseName(s string) string {
